@@ -152,9 +152,15 @@ let run_line (line : string) : string option =
     let sc = scanner_of_string (Sexp.atom (List.hd (f "scanner"))) in
     let buf = Buffer.create 512 in
     Buffer.add_string buf ("(" ^ id);
-    (match (match c_with_metrics (c_new sc text) m with
-            | Ok lx0 -> c_with_filter lx0 (fspec_of_sexp (List.hd (f "filter")))
-            | Panic -> Panic | Fuel -> Fuel) with
+    let filter_first = (try Sexp.atom (List.hd (f "order")) = "fm" with _ -> false) in
+    (match (if filter_first then
+              (match c_with_filter (c_new sc text) (fspec_of_sexp (List.hd (f "filter"))) with
+               | Ok lx0 -> c_with_metrics lx0 m
+               | Panic -> Panic | Fuel -> Fuel)
+            else
+              (match c_with_metrics (c_new sc text) m with
+               | Ok lx0 -> c_with_filter lx0 (fspec_of_sexp (List.hd (f "filter")))
+               | Panic -> Panic | Fuel -> Fuel)) with
      | Ok lx ->
        let sink = Sexp.atom (List.hd (f "sink")) = "1" in
        let ctx = List.fold_left (fun c t -> ctx_pushed c (nat t)) (ctx_new sink) (f "pushed") in
